@@ -1316,14 +1316,40 @@ class Model:
             term.set_data(encoding)
 
         # Evaluate group-specific terms
+        self._eval_group_terms(data, env)
+
+    def _eval_group_terms(self, data, env):
+        """Sets the data of the group-specific terms.
+
+        The effects of the terms that share a grouping factor are coded with the same redundancy
+        analysis as the common effects of that effect expression: reduced where the group
+        intercept or a margin already spans the level means, full otherwise. Lower-order helper
+        terms are added where an interaction needs them.
+        """
+        factors = []
         for term in self.group_terms:
-            encoding = True
-            # If both (1|g) and (x|g) are in the model, then the encoding for x is False.
-            if not isinstance(term.expr, Intercept):
-                for t in self.group_terms:
-                    if t.factor == term.factor and isinstance(t.expr, Intercept):
-                        encoding = False
-            term.set_data(encoding)
+            if term.factor not in factors:
+                factors.append(term.factor)
+
+        for factor in factors:
+            terms = [term for term in self.group_terms if term.factor == factor]
+            encodings = Model(*[term.expr for term in terms])._get_encoding_bools()
+            for term in terms:
+                codings = None
+                if not isinstance(term.expr, Intercept):
+                    codings = encodings.get(term.expr.name)
+                if not codings:
+                    # Intercepts, numeric effects
+                    term.set_data(False)
+                    continue
+                # The last coding is the one for the effect itself, the others become helper terms
+                for subencoding in codings[:-1]:
+                    helper = GroupSpecificTerm(
+                        create_extra_term(term.expr, subencoding, data, env), term.factor
+                    )
+                    helper.set_data(subencoding)
+                    self.group_terms.insert(self.group_terms.index(term), helper)
+                term.set_data(codings[-1])
 
 
 def create_extra_term(term, encoding, data, env):
